@@ -225,7 +225,7 @@ def make_fetcher(kind, fail_at):
 
 FETCH_KINDS = ['exception', 'oserror', 'boom', 'garbage', 'badbytes', 'badtuple']
 OPS = ['parse-malformed', 'parse-malformed', 'parse-bytes-bad', 'parse-bytes-bad-enc', 'parse-fetch-fault', 'parse-fetch-fault', 'parsefile-missing', 'parseurl-fault', 'parser-raising',
-       'parser-raising', 'parsestyle-bad', 'parsestyle-bytes', 'csscombine-fault', 'csscombine-ok', 'resolve-fault', 'replaceurls-fault', 'serialise-fault', 'serialise-fault', 'twin-sheets', 'twin-sheets', 'dom-reject', 'dom-reject', 'direct-objects',
+       'parser-raising', 'parsestyle-bad', 'parsestyle-bytes', 'csscombine-fault', 'csscombine-ok', 'resolve-fault', 'replaceurls-fault', 'serialise-fault', 'serialise-fault', 'twin-sheets', 'twin-sheets', 'media-leftover', 'media-leftover', 'dom-reject', 'dom-reject', 'direct-objects',
        'dom-mutator', 'dom-mutator', 'dom-mutator', 'restricted-profiles-roundtrip', 'parse-reentrant', 'parse-reentrant', 'serialise-weird', 'prefs-roundtrip', 'serializer-roundtrip', 'profile-roundtrip', 'validate-some', 'reuse-parser', 'reuse-parser', 'flip-mode', 'geturls', 'parse-ok', 'log-level']  # fmt: skip
 
 
@@ -413,6 +413,30 @@ class History:
                 try:
                     r.choice(PROBE_EDITS + [('', lambda s: s.cssRules[2].add('@media 3d{'), True), ('', lambda s: setattr(s, 'cssText', 'a{} @import "x";'), True),
                                             ('', lambda s: setattr(s.cssRules[1].style.getProperties()[0], 'cssText', 'top:)'), True)])[1](s)  # fmt: skip
+                finally:
+                    c.log.raiseExceptions = mode
+
+            out = self.sentinel_call(kind, fn, parse_family=False)
+        elif kind == 'media-leftover':
+            # media queries and lists given a text that holds more than they can use (refused or not): whatever the list parser hands
+            # back through the shared token store must not reach the next parse
+            which = r.randrange(8)
+            text = r.choice(['print, junk', 'screen, tty', 'print foo', 'tv and (color) print', 'handheld;', 'screen and (color) (min-width: 100px)', 'tv $', 'tv,'])
+            mode = c.log.raiseExceptions
+
+            def fn():
+                s = c.parseString('@media print, tv and (color){a{top:0}}@import "x.css" screen, tty;')
+                ml = s.cssRules[which % 2].media
+                c.log.raiseExceptions = which < 4
+                try:
+                    if which % 4 == 0:
+                        ml[0].mediaText = text
+                    elif which % 4 == 1:
+                        ml.appendMedium(text)
+                    elif which % 4 == 2:
+                        ml[1] = text
+                    else:
+                        ml.append(text)
                 finally:
                     c.log.raiseExceptions = mode
 
